@@ -32,7 +32,7 @@ func DecodeBytes(b []byte) (_ format.Bytes, size int, err error) {
 
 	// Data size
 	dataSize, n := decodeSize(b[:end])
-	if n < 0 {
+	if n <= 0 {
 		err = errors.New("decode bytes: invalid data size")
 		return
 	}
